@@ -1,4 +1,5 @@
 import LimnoriaModel.C18.Model
+import LimnoriaModel.C18.Plugin
 import LimnoriaModel.Driver.Core
 namespace C18
 open Py Wire
@@ -83,14 +84,88 @@ def render (r : Res) (ret : String) : String :=
     | some e => encExc e
     | none => ret) ++ "\t" ++ encLog r.2.1 ++ "\t" ++ encState r.1
 
+/-! ### the Scheduler plugin layer -/
+
+open Plug in
+def encKey : Plug.Key → String
+  | .id n => "I" ++ toString n
+  | .name s => "S" ++ enc s
+
+open Plug in
+def decKey (f : String) : Option Plug.Key :=
+  match f.toList with
+  | 'I' :: r => (String.ofList r).toNat?.map Plug.Key.id
+  | 'S' :: r => (dec (String.ofList r)).map Plug.Key.name
+  | _ => none
+
+def encPFn : Plug.PFn → String
+  | .single inst id cmd => "s" ++ toString inst ++ "/" ++ toString id ++ "/" ++ toString cmd
+  | .repeating inst nm period cmd =>
+    "r" ++ toString inst ++ "/" ++ enc nm ++ "/" ++ toString period ++ "/" ++ toString cmd
+  | .foreign tag => "f" ++ toString tag
+
+def encTable (tb : Plug.Table) : String :=
+  if tb.isEmpty then "-" else ";".intercalate (tb.map fun p =>
+    encKey p.1 ++ "=" ++ toString p.2.time ++ "/" ++ toString p.2.cmd ++ "/" ++ toString p.2.firstRun)
+
+def encPState (s : Plug.PState) : String :=
+  toString s.now ++ "|" ++ toString s.counter ++ "|" ++ (if s.loaded then "1" else "0") ++ "\t" ++
+  (if s.sched.isEmpty then "-" else ";".intercalate (s.sched.map fun e =>
+    toString e.t ++ "/" ++ encName e.name ++ "/" ++ encPFn e.fn)) ++ "\t" ++
+  encTable s.table ++ "\t" ++
+  (match s.pickle with
+    | none => "~"
+    | some tb => encTable tb)
+
+def encReply : Plug.Reply → String
+  | .added id => "added:" ++ toString id
+  | .ok => "ok"
+  | .invalidId => "invalid"
+  | .exists_ => "exists"
+  | .error => "error"
+  | .silent => "silent"
+  | .notLoaded => "notloaded"
+  | .listing ks => "list:" ++ (if ks.isEmpty then "-" else ",".intercalate (ks.map encKey))
+
+def encPEvs (evs : List Plug.PEv) : String :=
+  let l := evs.filterMap fun
+    | .ran _ cmd _ => some ("R" ++ toString cmd)
+    | .ranStale cmd _ => some ("X" ++ toString cmd)
+    | .skipped cmd => some ("K" ++ toString cmd)
+    | _ => none
+  if l.isEmpty then "-" else ",".intercalate l
+
+def decPOp : List String → Option Plug.POp
+  | ["padd", sec, cmd] => do pure (.add (← sec.toNat?) (← cmd.toNat?))
+  | ["premove", k] => do pure (.remove (← decKey k))
+  | ["prepeat", nm, period, cmd, delay] => do
+    pure (.repeat_ (← dec nm) (← period.toNat?) (← cmd.toNat?) (← delay.toNat?))
+  | ["plist"] => some .list
+  | ["pflush"] => some .flush
+  | ["pload"] => some .load
+  | ["punload"] => some .unload
+  | ["preload"] => some .reload
+  | ["prestart"] => some .restart
+  | ["pforeign", tag, t] => do pure (.foreign (← tag.toNat?) (← t.toNat?))
+  | ["ptick", dt] => do pure (.tick (← dt.toNat?))
+  | ["prun", picks] => do pure (.run (← decPicksP picks))
+  | _ => none
+where
+  decPicksP (f : String) : Option (List Name) :=
+    if f = "-" then some [] else (f.splitOn ",").mapM decName
+
 structure St where
   prog : Prog
   s : Sched
+  ps : Plug.PState
 
 def decPicks (f : String) : Option (List Name) :=
   if f = "-" then some [] else (f.splitOn ",").mapM decName
 
 def stepLine (st : St) : List String → Option (St × String)
+  | ["pnew", t] => do
+    let t' ← t.toNat?
+    pure ({ st with ps := Plug.pinit t' }, "ok\t-\t" ++ encPState (Plug.pinit t'))
   | ["prog", p] => do
     let p' ← decProg p
     pure ({ st with prog := p' }, "ok")
@@ -142,11 +217,17 @@ def stepLine (st : St) : List String → Option (St × String)
     match step st.prog st.s .reset with
     | some r => some ({ st with s := r.1 }, render r "ok")
     | none => none
-  | _ => none
+  | fs =>
+    match decPOp fs with
+    | none => none
+    | some op =>
+      match Plug.pstep st.ps op with
+      | none => some (st, "invalid")
+      | some r => some ({ st with ps := r.1 }, encReply r.2.2 ++ "\t" ++ encPEvs r.2.1 ++ "\t" ++ encPState r.1)
 
 def handler : Driver.Handler :=
   { σ := St
-    init := ⟨[], init 0⟩
+    init := ⟨[], init 0, Plug.pinit 0⟩
     step := fun st fs =>
       match stepLine st fs with
       | some r => r
